@@ -339,6 +339,109 @@ def k_ctor(which):
                   replay=("b_ctor", which))
 
 
+# ---- C08 / C09: one-step induction over the private cursor state ---------------------------------
+# From ANY cursor state satisfying the cursor invariant (remaining slice = N items laid out with the
+# iterator's stride), each method must return the ideal sequence's answer, leave a state that again
+# satisfies the invariant with the ideal remaining count, and touch memory only inside the remaining
+# slice. By induction this covers call sequences of any length (Engine A covers depth <= 4).
+
+def rows_state(ctx, name):
+    L, C, K, N, OFF = ctx.int("len"), ctx.int("cols"), ctx.int("skip"), ctx.int("items"), ctx.int("off")
+    ctx.assume += [f"(<= {L} {ISIZE_MAX})", f"(<= (+ {C} {K}) {ISIZE_MAX})", f"(<= (+ {OFF} {L}) {ISIZE_MAX})",
+                   f"(ite (= {C} 0) (= {N} 0) true)",
+                   f"(= {L} (ite (= {N} 0) 0 (+ (* {N} {C}) (* (- {N} 1) {K}))))"]
+    order = ctx.fields[name]
+    vals = {"v": Slice("parent", OFF, L), "cols": Int(C), "skip_cols": Int(K)}
+    st = Tup([vals[f] for f in order])
+    st.sname = name
+    return Ref(Box_(st)), dict(L=L, C=C, K=K, N=N, OFF=OFF, step=f"(+ {C} {K})", item_len=C, kind="rows", name=name)
+
+
+def col_state(ctx, name):
+    L, K, N, OFF = ctx.int("len"), ctx.int("skip"), ctx.int("items"), ctx.int("off")
+    ctx.assume += [f"(<= {L} {ISIZE_MAX})", f"(< {K} {ISIZE_MAX})", f"(<= (+ {OFF} {L}) {ISIZE_MAX})",
+                   f"(= {L} (ite (= {N} 0) 0 (+ 1 (* (- {N} 1) (+ {K} 1)))))"]
+    order = ctx.fields[name]
+    vals = {"v": Slice("parent", OFF, L), "skip": Int(K)}
+    st = Tup([vals[f] for f in order])
+    st.sname = name
+    return Ref(Box_(st)), dict(L=L, C="1", K=K, N=N, OFF=OFF, step=f"(+ {K} 1)", item_len="1", kind="col", name=name)
+
+
+def k_cursor(tname, meth):
+    is_rows = tname.startswith("Rows")
+    mutable = tname.endswith("Mut")
+
+    def find(fns):
+        pre = r"^&mut " if meth != "size_hint" else r"^&(?!mut)"
+        return find_fn(fns, "::" + meth, pre + r".*iter::" + tname + r"<'_, T>$", 2 if meth.startswith("nth") else 1)
+
+    def build(ctx):
+        r, d = rows_state(ctx, tname) if is_rows else col_state(ctx, tname)
+        args = [r]
+        if meth.startswith("nth"):
+            n = ctx.int("n")
+            d["n"] = n
+            args.append(Int(n))
+        d["recv"] = r
+        return args, d
+
+    def post(kind, events, value, d, state=None):
+        if kind != "return":
+            return "false"  # these methods never panic on a valid cursor state
+        N, OFF, step, ilen = d["N"], d["OFF"], d["step"], d["item_len"]
+        tup = state.roots["self"].cell.v
+        order = tup_order[0][d["name"]]
+        v = tup.fs[order.index("v")]
+        if not isinstance(v, Slice):
+            return "false"
+        newL, newOFF = v.len, v.off
+
+        def lay(n):  # slice length holding n items
+            if d["kind"] == "rows":
+                return f"(ite (= {n} 0) 0 (+ (* {n} {d['C']}) (* (- {n} 1) {d['K']})))"
+            return f"(ite (= {n} 0) 0 (+ 1 (* (- {n} 1) (+ {d['K']} 1))))"
+
+        def item_is(val, idx):  # returned Some(item) denotes item idx of the original remaining sequence
+            off = f"(+ {OFF} (* {idx} {step}))"
+            if isinstance(val, Slice):
+                return f"(and (= {val.off} {off}) (= {val.len} {ilen}))"
+            if isinstance(val, Elem):
+                return f"(= (+ {val.sl.off} {val.idx}) {off})"
+            return "false"
+
+        if meth == "size_hint":
+            lo, hi = value.fs[0], value.fs[1]
+            return f"(and (= {lo.t} {N}) {hi.some} (= {hi.payload.t} {N}) {no_ub(events)})"
+        some = value.some
+        if meth in ("next", "next_back"):
+            idx = "0" if meth == "next" else f"(- {N} 1)"
+            rem = f"(- {N} 1)"
+            front_moved = meth == "next"
+            ok_some = f"(and {some} {item_is(value.payload, idx)} (= {newL} {lay(rem)}) (=> (> {rem} 0) (= {newOFF} {('(+ ' + OFF + ' ' + step + ')') if front_moved else OFF})))"
+            ok_none = f"(and (not {some}) (= {newL} 0))"
+            return f"(and (ite (= {N} 0) {ok_none} {ok_some}) {no_ub(events)})"
+        n = d["n"]
+        if meth == "nth":
+            idx = n
+            rem = f"(- {N} {n} 1)"
+            ok_some = f"(and {some} {item_is(value.payload, idx)} (= {newL} {lay(rem)}) (=> (> {rem} 0) (= {newOFF} (+ {OFF} (* (+ {n} 1) {step})))))"
+        else:
+            idx = f"(- {N} 1 {n})"
+            rem = f"(- {N} {n} 1)"
+            ok_some = f"(and {some} {item_is(value.payload, idx)} (= {newL} {lay(rem)}) (=> (> {rem} 0) (= {newOFF} {OFF})))"
+        ok_none = f"(and (not {some}) (= {newL} 0))"
+        return f"(and (ite (>= {n} {N}) {ok_none} {ok_some}) {no_ub(events)})"
+
+    k = Kernel(f"cursor_{tname.lower()}_{meth}", "C08" if is_rows else "C09", find, build, post,
+               f"{tname}::{meth} from an arbitrary cursor state: ideal answer, ideal remaining state (one step of the induction)")
+    k.needs_state = True
+    return k
+
+
+tup_order = [None]
+
+
 def all_kernels():
     ks = []
     for recv in ("owned", "view", "viewmut"):
@@ -356,4 +459,7 @@ def all_kernels():
     ks.append(k_view_dims("view"))
     for w in ("new", "init", "from_vec", "view_new", "viewmut_new"):
         ks.append(k_ctor(w))
+    for t in ("Rows", "RowsMut", "Col", "ColMut"):
+        for m in ("next", "next_back", "nth", "nth_back", "size_hint"):
+            ks.append(k_cursor(t, m))
     return ks
